@@ -38,7 +38,10 @@ pub fn synthesize(wasm: &[u8], a: &AMod, c: DCfg) -> Option<Vec<u8>> {
         let mut program = LineProgram::new(encoding, LineEncoding::default(), comp_dir, comp_name.clone(), None);
         let dir = program.default_directory();
         let file = program.add_file(LineString::String(b"other.c".to_vec()), dir, None);
-        let mut emit_rows = |program: &mut LineProgram, fi: usize, f: &ABody, base: u64| { for (k, o) in f.ops.iter().enumerate() { let r = program.row(); r.address_offset = rel(o.1) - base; r.file = file; r.line = line_of(fi, k); program.generate_row(); } };
+        // a second file in an include directory: rows alternate between the two files (the file table conversion must keep both)
+        let inc = program.add_directory(LineString::String(b"/dir/inc".to_vec()));
+        let file2 = program.add_file(LineString::String(b"util.h".to_vec()), inc, None);
+        let mut emit_rows = |program: &mut LineProgram, fi: usize, f: &ABody, base: u64| { for (k, o) in f.ops.iter().enumerate() { let r = program.row(); r.address_offset = rel(o.1) - base; r.file = if c.nested && k % 2 == 1 { file2 } else { file }; r.line = line_of(fi, k); program.generate_row(); } };
         if c.one_seq {
             let base = rel(a.code[*glo].range.0);
             program.begin_sequence(Some(Address::Constant(base)));
@@ -54,6 +57,13 @@ pub fn synthesize(wasm: &[u8], a: &AMod, c: DCfg) -> Option<Vec<u8>> {
         let uid = dwarf.units.add(write::Unit::new(encoding, program));
         let unit = dwarf.units.get_mut(uid);
         let root = unit.root();
+        // richer well-formed DWARF (no-panic / validity coverage): a range list on the unit covering every function, and per function a frame base
+        // expression, a variable located in a wasm local, a variable with a location list over two address ranges and a static with DW_OP_addr
+        if c.nested {
+            let ranges: Vec<write::Range> = (*glo..*ghi).map(|fi| { let f = &a.code[fi]; if fi % 2 == 0 { write::Range::StartEnd { begin: Address::Constant(rel(f.range.0)), end: Address::Constant(rel(f.range.1)) } } else { write::Range::StartLength { begin: Address::Constant(rel(f.range.0)), length: (f.range.1 - f.range.0) as u64 } } }).collect();
+            let rid = unit.ranges.add(write::RangeList(ranges));
+            unit.get_mut(root).set(gimli::DW_AT_ranges, AttributeValue::RangeListRef(rid));
+        }
         unit.get_mut(root).set(gimli::DW_AT_name, AttributeValue::String(format!("main{}.c", ui).into_bytes()));
         unit.get_mut(root).set(gimli::DW_AT_low_pc, AttributeValue::Address(Address::Constant(0)));
         for fi in *glo..*ghi { let f = &a.code[fi];
@@ -70,10 +80,17 @@ pub fn synthesize(wasm: &[u8], a: &AMod, c: DCfg) -> Option<Vec<u8>> {
                 if k1 + 1 < k2 { let iid = unit.add(bid, gimli::DW_TAG_lexical_block); let ib = unit.get_mut(iid); let ilo = rel(f.ops[k1 + 1].1);
                     ib.set(gimli::DW_AT_name, AttributeValue::String(format!("i{}", fi).into_bytes()));
                     ib.set(gimli::DW_AT_low_pc, AttributeValue::Address(Address::Constant(ilo))); ib.set(gimli::DW_AT_high_pc, AttributeValue::Udata(rel(f.ops[k2].1) - ilo)); }
+                { let mut fb = write::Expression::new(); fb.op_wasm_local(0); fb.op(gimli::DW_OP_stack_value); unit.get_mut(id).set(gimli::DW_AT_frame_base, AttributeValue::Exprloc(fb)); }
+                { let mut e = write::Expression::new(); e.op_wasm_global(0); unit.get_mut(vid).set(gimli::DW_AT_location, AttributeValue::Exprloc(e)); }
+                if rel(f.ops[(k1 + k2) / 2].1) > blo && rel(f.ops[k2].1) > rel(f.ops[(k1 + k2) / 2].1) { let wid = unit.add(bid, gimli::DW_TAG_variable); let mut e1 = write::Expression::new(); e1.op_wasm_stack(0); let mut e2 = write::Expression::new(); e2.op_fbreg(4);
+                  let mid = rel(f.ops[(k1 + k2) / 2].1);
+                  let lid = unit.locations.add(write::LocationList(vec![write::Location::StartEnd { begin: Address::Constant(blo), end: Address::Constant(mid), data: e1 }, write::Location::StartLength { begin: Address::Constant(mid), length: rel(f.ops[k2].1) - mid, data: e2 }]));
+                  let w = unit.get_mut(wid); w.set(gimli::DW_AT_name, AttributeValue::String(format!("w{}", fi).into_bytes())); w.set(gimli::DW_AT_location, AttributeValue::LocationListRef(lid)); }
+                { let sid = unit.add(id, gimli::DW_TAG_variable); let mut e = write::Expression::new(); e.op_addr(Address::Constant(rel(f.ops[k1].1))); let sv = unit.get_mut(sid); sv.set(gimli::DW_AT_name, AttributeValue::String(format!("s{}", fi).into_bytes())); sv.set(gimli::DW_AT_location, AttributeValue::Exprloc(e)); }
                 let pid = unit.add(id, gimli::DW_TAG_formal_parameter); unit.get_mut(pid).set(gimli::DW_AT_name, AttributeValue::String(format!("p{}", fi).into_bytes())); } }
     }
     let mut sections = Sections::new(EndianVec::new(LittleEndian));
-    dwarf.write(&mut sections).ok()?;
+    if let Err(e) = dwarf.write(&mut sections) { if std::env::var("VH_DEBUG_FILES").is_ok() { eprintln!("synthesize failed: {:?} under {:?}", e, c); } return None; }
     let mut out = wasm.to_vec();
     sections.for_each(|id, data| -> Result<(), ()> { if !data.slice().is_empty() {
         let mut d = data.slice().to_vec();
@@ -105,27 +122,31 @@ fn patch_file0(d: &mut Vec<u8>) {
     *d = out;
 }
 
-pub struct DRead { pub rows: Vec<(u64, u64, bool)>, pub subs: Vec<(String, u64, u64)> }
+pub struct DRead { pub rows: Vec<(u64, u64, bool)>, pub subs: Vec<(String, u64, u64)>, pub files: std::collections::BTreeMap<u64, String>, pub cu_ranges: Vec<(u64, u64)> }
 pub fn read_dwarf(b: &[u8]) -> Option<DRead> {
     let mut secs = std::collections::HashMap::new();
     for p in Parser::new(0).parse_all(b) { if let Ok(Payload::CustomSection(c)) = p { secs.insert(c.name().to_string(), c.data().to_vec()); } }
-    if !secs.contains_key(".debug_info") { return Some(DRead { rows: vec![], subs: vec![] }); }
+    if !secs.contains_key(".debug_info") { return Some(DRead { rows: vec![], subs: vec![], files: Default::default(), cu_ranges: vec![] }); }
     let load = |id: gimli::SectionId| -> Result<std::borrow::Cow<[u8]>, gimli::Error> { Ok(secs.get(id.name()).cloned().unwrap_or_default().into()) };
     let dwarf_cow = gimli::Dwarf::load(load).ok()?;
     let dwarf = dwarf_cow.borrow(|s| gimli::EndianSlice::new(s, LittleEndian));
-    let mut rows = vec![]; let mut subs = vec![];
+    let mut rows = vec![]; let mut subs = vec![]; let mut cu_ranges = vec![]; let mut files: std::collections::BTreeMap<u64, String> = Default::default();
     let mut units = dwarf.units();
     while let Some(h) = units.next().ok()? {
         let unit = dwarf.unit(h).ok()?;
-        if let Some(lp) = unit.line_program.clone() { let mut r = lp.rows(); while let Some((_, row)) = r.next_row().ok()? { rows.push((row.address(), row.line().map(|l| l.get()).unwrap_or(0), row.end_sequence())); } }
+        if let Some(lp) = unit.line_program.clone() { let mut r = lp.rows(); while let Some((hdr, row)) = r.next_row().ok()? { rows.push((row.address(), row.line().map(|l| l.get()).unwrap_or(0), row.end_sequence()));
+            if !row.end_sequence() { if let Some(f) = row.file(hdr) { let nm = dwarf.attr_string(&unit, f.path_name()).ok().map(|s| String::from_utf8_lossy(s.slice()).to_string()).unwrap_or_default();
+                let dir = f.directory(hdr).and_then(|d| dwarf.attr_string(&unit, d).ok()).map(|s| String::from_utf8_lossy(s.slice()).to_string()).unwrap_or_default();
+                files.insert(row.line().map(|l| l.get()).unwrap_or(0), format!("{}/{}", dir, nm)); } } } }
         let mut es = unit.entries();
-        while let Some((_, e)) = es.next_dfs().ok()? { if e.tag() == gimli::DW_TAG_subprogram || e.tag() == gimli::DW_TAG_lexical_block {
+        while let Some((_, e)) = es.next_dfs().ok()? { if e.tag() == gimli::DW_TAG_compile_unit { if let Some(gimli::AttributeValue::RangeListsRef(r)) = e.attr_value(gimli::DW_AT_ranges).ok()? { let off = dwarf.ranges_offset_from_raw(&unit, r); let mut it = dwarf.ranges(&unit, off).ok()?; while let Some(rg) = it.next().ok()? { cu_ranges.push((rg.begin, rg.end)); } } }
+            if e.tag() == gimli::DW_TAG_subprogram || e.tag() == gimli::DW_TAG_lexical_block {
             let name = match e.attr_value(gimli::DW_AT_name).ok()? { Some(gimli::AttributeValue::String(s)) => String::from_utf8_lossy(s.slice()).to_string(), _ => "?".into() };
             let lo = match e.attr_value(gimli::DW_AT_low_pc).ok()? { Some(gimli::AttributeValue::Addr(a)) => a, _ => u64::MAX };
             let hi = match e.attr_value(gimli::DW_AT_high_pc).ok()? { Some(gimli::AttributeValue::Udata(a)) => a, _ => u64::MAX };
             subs.push((name, lo, hi)); } }
     }
-    Some(DRead { rows, subs })
+    Some(DRead { rows, subs, files, cu_ranges })
 }
 
 /// the instruction stream of the (single) input line program exactly as walrus' convert_line_program iterates over it,
@@ -226,7 +247,7 @@ pub fn main(args: &[String]) {
                     None => { n_panics += 1; let class = if dc.file0 { "dwarf-emit-panics:v5-row-names-file-0" } else if dc.one_seq || dc.pair_seq { "dwarf-emit-panics:sequence-spanning-functions" } else { "dwarf-emit-panics" };
                         viol.push(Json::obj(vec![("class", Json::s(class)), ("props", Json::s("C10 C02")), ("what", Json::s(format!("{}: parse/emit with generate_dwarf panics on well-formed DWARF", vname))), ("input", Json::s(crate::c03::hex(&input)))])); continue; } };
                 if variant == 2 && amod::validate(&run.out, feats).is_err() { continue; }
-                if let Err(e) = amod::validate(&run.out, feats) { if !(variant == 1 && e.contains("undeclared function reference")) { viol.push(Json::obj(vec![("class", Json::s("output-invalid-with-dwarf")), ("props", Json::s("C02 C10")), ("what", Json::s(format!("{}: the module emitted with generate_dwarf does not validate: {}", vname, e))), ("input", Json::s(crate::c03::hex(&input)))])); } }
+                if let Err(e) = amod::validate(&run.out, feats) { { viol.push(Json::obj(vec![("class", Json::s("output-invalid-with-dwarf")), ("props", Json::s("C02 C10")), ("what", Json::s(format!("{}: the module emitted with generate_dwarf does not validate: {}", vname, e))), ("input", Json::s(crate::c03::hex(&input)))])); } }
                 let b = match amod::decode(&run.out) { Ok(b) => b, Err(_) => continue };
                 let dout = match read_dwarf(&run.out) { Some(d) => d, None => { viol.push(mk("dwarf-output-unreadable", "gimli cannot read the emitted debug sections".into())); continue; } };
                 n_cases += 1;
@@ -270,6 +291,11 @@ pub fn main(args: &[String]) {
                         (None, Some((_, lo, hi))) => { if *lo != 0xFFFF_FFFF && *lo != 0 && out_starts.iter().any(|s| *s >= *lo && *s < lo + hi) { note("subprogram-range-wrong", i, format!("subprogram {} of a removed function covers live code [{}, +{})", nm, lo, hi)); } }
                         (Some(_), None) => note("subprogram-range-wrong", i, format!("subprogram {} disappeared", nm)),
                         (None, None) => {} } }
+                if std::env::var("VH_DEBUG_RANGES").is_ok() && dc.nested { eprintln!("{} ranges in: {:?} out: {:?} ; out funcs: {:?}", vname, din.cu_ranges, dout.cu_ranges, b.code.iter().map(|f| (f.range.0 as u64 - b.code_section.unwrap().0 as u64, f.range.1 as u64 - b.code_section.unwrap().0 as u64)).collect::<Vec<_>>()); }
+                if std::env::var("VH_DEBUG_FILES").is_ok() && variant == 0 && dc.nested { eprintln!("files in: {:?} out: {:?}", din.files.iter().take(3).collect::<Vec<_>>(), dout.files.iter().take(3).collect::<Vec<_>>()); }
+                // the source file of a row is part of what "the row of that instruction" means: every surviving row names the file it named in the input
+                { let mut bad = 0; let mut first = String::new(); for (line, f) in &dout.files { if let Some(fi) = din.files.get(line) { if fi != f { bad += 1; if first.is_empty() { first = format!("the row of line {} names {:?} in the input and {:?} in the output", line, fi, f); } } } }
+                  if bad > 0 { note("line-row-file-changed", 0, format!("{} rows, first: {}", bad, first)); } }
                 // nested scopes: a block whose two boundary instructions survive covers exactly the code between them; DIEs keep their document order
                 if dc.nested {
                     if din.subs.iter().map(|s| &s.0).collect::<Vec<_>>() != dout.subs.iter().map(|s| &s.0).collect::<Vec<_>>() { note("die-order-changed", 0, format!("the DIEs with address ranges are {:?} in the input and {:?} in the output", din.subs.iter().map(|s| &s.0).collect::<Vec<_>>(), dout.subs.iter().map(|s| &s.0).collect::<Vec<_>>())); }
